@@ -108,6 +108,14 @@ class Verifier(Engine):
             return self.call_super(st, f.attr, e)
         if any(isinstance(a, ast.Starred) for a in e.args) or any(k.arg is None for k in e.keywords):
             raise OutOfSubset('star arguments')
+        if isinstance(f, ast.Attribute) and isinstance(f.value, ast.Name) and f.value.id == 'self' \
+                and f.attr in self.ctr.attr_calls:
+            # a callable stored in an attribute of self at construction time (parser class, tokenizer function): called
+            # through the contract the caller's contract names for it (an assumption about what the attribute holds)
+            args = [self.ev.ev(st, a) for a in e.args]
+            kwargs = {k.arg: self.ev.ev(st, k.value) for k in e.keywords}
+            self.calls_reached += 1
+            return self.call_contract(st, self.ctr.attr_calls[f.attr], args, kwargs)
         fv = self.ev.ev(st, f)
         # generator expression arguments stay syntactic
         args = [self.ev.ev(st, a) if not isinstance(a, ast.GeneratorExp) else VFn('genexp', node=a, env={}) for a in e.args]
